@@ -29,7 +29,7 @@ RULE = 'one task per (shape, flag set, criterion + argument vector); non-trivial
 def BOUNDS(tier):
     return ('shapes: corner set + seeded random ns<=4, np<=3, nl<=3; flag sets: all admissible; 9 criteria with default args; '
             'cut-offs: every 1..R (greedy also R+1); multipliers: %s; quotas symbolic, well-formed'
-            % ('4 vectors per criterion' if tier == 'quick' else 'all of {0..3}^2 (thorough: {0..2}^2 plus (3,1),(1,3))'))
+            % ('4 vectors per criterion, 8 argument variants sampled per (shape, flags)' if tier == 'quick' else 'all of {0..3}^2 (thorough: {0..2}^2 plus (3,1),(1,3))'))
 
 
 def arg_variants(I, tier, rng):
@@ -51,13 +51,13 @@ def arg_variants(I, tier, rng):
 
 def tasks(tier, seed):
     rng = random.Random(seed + 303)
-    shs = shapes.shape_set(tier, seed, quick_n=14, thorough_n=160)
+    shs = shapes.shape_set(tier, seed, quick_n=30, thorough_n=160)
     out = []
     for i, I in enumerate(shs):
         for flags in lpchecks.flag_sets_for(I):
             av = arg_variants(I, tier, rng)
             if tier == 'quick':
-                av = av[:9] + rng.sample(av[9:], min(5, len(av) - 9))
+                av = av[:9] + rng.sample(av[9:], min(8, len(av) - 9))
             for c in av:
                 out.append({'prop': ID, 'shape': lpchecks.shape_data(I), 'flags': flags, 'seq': [c],
                             'forms': ['opt'], 'wf': True, 'negctl': i < 3})
